@@ -23,6 +23,7 @@ KINDS = {
     'g1perr': (1, 'perr'), 'g2perr': (2, 'perr'), 'g0perr': (0, 'perr'),
     'g2boom': (2, 'boom'), 'g1boom': (1, 'boom'),
     'plain': (0, 'plain'), 'plainperr': (0, 'plainperr'),
+    'v1ok': (1, 'ok'),      # coroutine method of a class based view that keeps per-call state on self across its gate
 }
 
 
@@ -100,7 +101,23 @@ def build(cfg, mon):
         handlers = {None: [eh]}
     d = pjrpc.server.AsyncDispatcher(middlewares=middlewares, error_handlers=handlers, concurrent_batch=cfg['concurrent'])
     for kind in KINDS:
-        d.add(make(kind), name=kind)
+        if kind != 'v1ok':
+            d.add(make(kind), name=kind)
+
+    class StatefulView(pjrpc.server.ViewMixin):
+        async def v1ok(self, i):
+            mon.events.append((i, 'run'))
+            top = cfg['mw'] == 'none'
+            if top:
+                mon.enter(i)
+            try:
+                self.mine = i
+                await gate(i, 'm0')
+                return {'elem': self.mine, 'kind': 'v1ok'}
+            finally:
+                if top:
+                    mon.exit(i)
+    d.registry.view(StatefulView)
     return d
 
 
@@ -204,13 +221,13 @@ def check(cfg, choices, out, mon, unhandled, rec):
 
 def gen_cases(ctx):
     n_main = ctx.pick(3, 3)
-    main = ['g0ok', 'g1ok', 'g2ok', 'g1perr', 'g2boom', 'plain', 'unknown']
+    main = ['g0ok', 'g1ok', 'g2ok', 'g1perr', 'g2boom', 'plain', 'unknown', 'v1ok']
     alphabet = [(k, c) for k in main for c in (True, False)]
     for conc in (True, False):
         for n in range(1, n_main + 1):
             for elems in itertools.product(alphabet, repeat=n):
                 yield dict(part='main', concurrent=conc, mw='none', eh='none', elems=elems)
-    four = [('g1ok', True), ('g2ok', True), ('g1perr', True), ('g1ok', False), ('plain', True)]
+    four = [('g1ok', True), ('g2ok', True), ('g1perr', True), ('g1ok', False), ('plain', True), ('v1ok', True)]
     for conc in (True, False):
         for elems in itertools.product(alphabet if not ctx.quick else four, repeat=4):
             yield dict(part='four', concurrent=conc, mw='none', eh='none', elems=elems)
